@@ -105,6 +105,21 @@ def K1(F, rep, R):
         accesses = []   # (fn, field, line, held)
         calls_held = []  # (fn, callee simple, held, line)
 
+        def lock_wrapper(callee):
+            for c in F.functions.get(callee, []):
+                body = c.get('body')
+                stm = body.get('body', []) if isinstance(body, dict) and body.get('k') == 'Compound' else []
+                pids = {p_['id'] for p_ in c.get('params', [])}
+                li = [i for i, x in enumerate(stm) if isinstance(x, dict) and is_lock_decl(x, mtx) is not None]
+                if not li or not pids:
+                    continue
+                after = [y for x in stm[li[0] + 1:] for y in walk(x) if y.get('k') == 'Call' and y.get('ck') == 'operator' and y.get('op') == '()' and y.get('args') and
+                         (strip_all_casts(y['args'][0]) or {}).get('id') in pids]
+                before = [y for x in stm[:li[0]] for y in walk(x) if y.get('k') == 'Call' and y.get('ck') == 'operator' and y.get('op') == '()']
+                if after and not before:
+                    return True
+            return False
+
         def scan(fn):
             def rec(s, held, in_wait_lambda=False):
                 if not isinstance(s, dict):
@@ -138,6 +153,14 @@ def K1(F, rep, R):
                     o = strip_all_casts(s.get('obj'))
                     if isinstance(o, dict) and o.get('k') == 'This':
                         calls_held.append((fn, s['fn'], s.get('csig'), held, s.get('l')))
+                        if not held and any(isinstance(a, dict) and [x for x in walk(a) if x.get('k') == 'Lambda'] for a in s.get('args', [])) and \
+                                lock_wrapper(s.get('callee')):
+                            # template <typename F> auto locked(F f) const { std::lock_guard<std::mutex> lock(m_mutex); return f(); }
+                            # - the lambda handed to it runs with the mutex held
+                            for a in s.get('args', []):
+                                rec(a, True)
+                            rec(s.get('obj'), held)
+                            return None
                 for c in children(s):
                     rec(c, held)
                 return None
@@ -178,8 +201,8 @@ def K1(F, rep, R):
                     exclusive[key] = True
                     changed = True
         for (fn, field, line, held) in accesses:
-            if fn.get('kind') in ('ctor', 'dtor') or exclusive.get((fn['simple'], fn['sig'])):
-                continue
+            if fn.get('kind') in ('ctor', 'dtor') or exclusive.get((fn['simple'], fn['sig'])) or fn.get('accessor'):
+                continue    # (an accessor that only returns a reference to the member was replaced by the member at its call sites)
             rep.count('K1')
             ok = held
             why = 'with %s held' % mtx[0]
@@ -1333,8 +1356,7 @@ def K15(F, rep, R):
                '%s: the abort flag is set in abort() and changed nowhere else' % short(cls) if bad is None and sets > 0 else
                ('%s changes the abort flag (line %s): after an abort the stage can block again - a reader that drains it and reads once more waits for ever'
                 % (short(bad[0]['name']), bad[1])) if bad else '%s::abort() does not set the flag' % short(cls), nontrivial=True)
-    if n < 2:
-        raise AnalysisBroken('K15: expected an abort flag in two stage classes, found %d' % n)
+    # (a class without the flag is K2's business - its waits have no abort atom; the floor of K15 in rules/floors.json notices a rule gone blind)
 
 
 def recv_root_(call):
@@ -1803,12 +1825,13 @@ def Q(F, rep, R, FL):
         impure = False
         for e in evs:
             if e['ev'] == 'branch':
-                calls = [x for x in walk(e['n']) if x.get('k') == 'Call' and x.get('fn') == 'empty']
+                en = deep_resolve(e['n'], rd)      # const bool empty = m_queue.empty(); ... if (!empty)
+                calls = [x for x in walk(en) if x.get('k') == 'Call' and x.get('fn') == 'empty']
                 if calls:
-                    neg = any(x.get('k') == 'Un' and x.get('op') == '!' for x in walk(e['n']))
+                    neg = any(x.get('k') == 'Un' and x.get('op') == '!' for x in walk(en))
                     empty_branch = e['taken'] != neg
                     # the decision must be m_queue.empty() alone: any other atom lets eof be reported while objects remain
-                    c = strip(e['n'])
+                    c = strip(en)
                     while isinstance(c, dict) and (c.get('k') == 'Cast' or (c.get('k') == 'Un' and c.get('op') == '!')):
                         c = strip(c['sub'])
                     if not (isinstance(c, dict) and c.get('k') == 'Call' and c.get('fn') == 'empty'):
@@ -1816,8 +1839,20 @@ def Q(F, rep, R, FL):
         fronts = [i for i, e in enumerate(evs) if e['ev'] == 'call' and e['n'].get('fn') == 'front']
         pops = [i for i, e in enumerate(evs) if e['ev'] == 'call' and e['n'].get('fn') == 'pop']
         rdstate = [e for e in evs if e['ev'] == 'assign' and (member_path(e['n'].get('lhs') or (e['n'].get('args') or [None])[0]) or (None,))[-1] == 'm_rdstate']
-        sets_eof = any('eofbit' in str([x.get('q') for x in walk(e['n'])]) for e in rdstate)
-        sets_good = any('goodbit' in str([x.get('q') for x in walk(e['n'])]) for e in rdstate)
+        # m_rdstate = empty ? (eofbit | failbit) : goodbit;  - the arm that belongs to this path
+        def _arm(n_):
+            r_ = n_.get('rhs') if n_.get('k') == 'Bin' else ((n_.get('args') or [None, None])[1] if len(n_.get('args') or []) > 1 else None)
+            r0 = strip_all_casts(r_) if r_ is not None else None
+            while isinstance(r0, dict) and r0.get('k') == 'Paren':
+                r0 = strip_all_casts(r0.get('sub'))
+            if isinstance(r0, dict) and r0.get('k') == 'Cond' and empty_branch is not None:
+                cn = deep_resolve(r0.get('cond'), rd)
+                if [x for x in walk(cn) if x.get('k') == 'Call' and x.get('fn') == 'empty']:
+                    ng = any(x.get('k') == 'Un' and x.get('op') == '!' for x in walk(cn))
+                    return r0.get('then') if (empty_branch != ng) else r0.get('else')
+            return n_
+        sets_eof = any('eofbit' in str([x.get('q') for x in walk(_arm(e['n']))]) for e in rdstate)
+        sets_good = any('goodbit' in str([x.get('q') for x in walk(_arm(e['n']))]) for e in rdstate)
         # a named constant (const std::ios_base::iostate endOfQueueState = eofbit | failbit;) is folded by the front end: decide on the value
         eofv = _iostate_value(F, 'eofbit')
         for e in rdstate:
